@@ -678,21 +678,21 @@ Proof.
   intros H. rewrite <- (firstn_skipn k l) in H. apply Forall_app in H. apply H.
 Qed.
 
-(* a step applied to an image on which a process runs with last state [v_state v] *)
+(* a step applied to an image on which a process runs with last state [v_state v]; a crash after ANY
+   number k of its writes leaves an image that satisfies the durable invariant *)
 Lemma step_apply m inits built execs v sq e :
   RF m inits built execs (v_state v) ->
-  (lv = true -> early_empty_step c m sq = false) ->
   let r := step c m v sq e in
   let built' := log_opt built (a_built r) in
   let execs' := log_execs execs r (AStep sq e) in
   a_init r = None /\
   (exists v', a_vol r = Some v' /\ RF (apply_writes m (a_ws r)) inits built' execs' (v_state v')) /\
-  (forall k, (Nat.ltb (length (a_pre r)) k && Nat.ltb k (length (a_ws r)))%bool = false ->
+  (forall k,
      let m' := apply_writes m (firstn k (a_ws r)) in
      DInv m' inits built' execs' /\ g_height m <= g_height m' /\ (forall j, j <= g_height m -> g_block m' j = g_block m j)).
 Proof.
-  intros Hrf Hee r built' execs'.
-  pose proof (step_spec m inits built execs v sq e Hrf Hee) as (Hini & Hsafe & Hcase).
+  intros Hrf r built' execs'.
+  pose proof (step_spec m inits built execs v sq e Hrf) as (Hini & Hsafe & Hcase).
   fold r in Hini, Hsafe, Hcase. fold built' in Hsafe, Hcase. fold execs' in Hcase.
   pose proof (rf_height _ _ _ _ _ Hrf) as (Hsh & Hge).
   assert (Hrf' : RF m inits built' execs' (v_state v)).
@@ -709,9 +709,10 @@ Proof.
     assert (Hws : a_ws r = a_pre r) by (unfold a_ws; rewrite Hcm; apply app_nil_r).
     rewrite Hws. split.
     + exists v'. split; [exact Hv'|]. rewrite Hvs. exact Hr1.
-    + intros k _. apply Hpref.
+    + intros k. apply Hpref.
   - (* commit *)
     set (m1 := apply_writes m (a_pre r)) in *.
+    set (s' := next_state (v_state v) (hdr_of b) ret) in *.
     assert (Hb1 : g_block m1 (g_height m1 + 1) = Some b).
     { rewrite B1. unfold m1. rewrite Hpre, aws_app, apply_writes_cons, apply_writes_nil.
       destruct (aw_block (apply_writes m pre0) (g_height m + 1) b) as (_ & _ & _ & E4).
@@ -720,25 +721,33 @@ Proof.
     { eapply block_valid_blocks; [|exact Hbv].
       destruct Hbv as (Hval & _). apply validate_facts in Hval. destruct Hval as (Hhh & _).
       apply B3. unfold hdr_of. lia. }
-    pose proof (rf_commit m1 inits built' execs' (v_state v) b ret Hr1 Hb1 Hbv1) as (Hr2 & Hh2 & Hb2).
-    assert (Hfull : apply_writes m (a_ws r) =
-                    apply_writes m1 [w_height (g_height m1 + 1); w_state (next_state (v_state v) (hdr_of b) ret)]).
-    { unfold a_ws. rewrite aws_app, Hcm, B1. reflexivity. }
+    pose proof (rf_commit m1 inits built' execs' (v_state v) b ret Hr1 Hb1 Hbv1) as (Hr2 & Hh2 & Hb2 & HDA & HhA & HbA).
+    fold s' in Hr2, Hh2, Hb2, HDA, HhA, HbA.
+    assert (Hcm' : a_commit r = [w_state s'; w_height (g_height m1 + 1)]) by (rewrite Hcm, B1; reflexivity).
+    assert (Hfull : apply_writes m (a_ws r) = apply_writes m1 [w_state s'; w_height (g_height m1 + 1)]).
+    { unfold a_ws. rewrite aws_app, Hcm'. reflexivity. }
     split.
     + exists v'. split; [exact Hv'|]. rewrite Hfull, Hvs. exact Hr2.
-    + intros k Hk.
+    + intros k.
       destruct (Nat.leb_spec k (length (a_pre r))) as [Hle|Hgt].
       * (* the cut is inside the safe prefix *)
         assert (Hf : firstn k (a_ws r) = firstn k (a_pre r)).
         { unfold a_ws. rewrite firstn_app. replace (k - length (a_pre r))%nat with 0%nat by lia.
           cbn [firstn]. apply app_nil_r. }
         rewrite Hf. apply Hpref.
-      * (* the cut is after the last write *)
-        assert (Hall : (length (a_ws r) <= k)%nat).
-        { apply andb_false_iff in Hk. destruct Hk as [Hk|Hk]; [apply Nat.ltb_ge in Hk; lia|apply Nat.ltb_ge in Hk; exact Hk]. }
-        rewrite firstn_all2 by exact Hall. rewrite Hfull.
-        split; [eapply rf_dinv; exact Hr2|]. split; [lia|].
-        intros j Hj. rewrite Hb2. apply B3, Hj.
+      * destruct (Nat.eq_dec k (S (length (a_pre r)))) as [->|Hne].
+        { (* the cut is between the state write and the height write *)
+          assert (Hf : firstn (S (length (a_pre r))) (a_ws r) = a_pre r ++ [w_state s']).
+          { unfold a_ws. rewrite firstn_app, firstn_all2 by lia.
+            replace (S (length (a_pre r)) - length (a_pre r))%nat with 1%nat by lia. rewrite Hcm'. reflexivity. }
+          rewrite Hf, aws_app. fold m1.
+          split; [exact HDA|]. split; [lia|]. intros j Hj. rewrite HbA. apply B3, Hj. }
+        { (* the cut is after the last write *)
+          assert (Hall : (length (a_ws r) <= k)%nat).
+          { unfold a_ws. rewrite app_length, Hcm'. cbn [length]. lia. }
+          rewrite firstn_all2 by exact Hall. rewrite Hfull.
+          split; [eapply rf_dinv; exact Hr2|]. split; [lia|].
+          intros j Hj. rewrite Hb2. apply B3, Hj. }
 Qed.
 
 Definition frame (st st' : mach) : Prop :=
@@ -749,36 +758,40 @@ Lemma frame_refl st : frame st st. Proof. split; [lia|reflexivity]. Qed.
 Lemma frame_same st st' : img_of st' = img_of st -> frame st st'.
 Proof. intros E. unfold frame. rewrite E. split; [lia|reflexivity]. Qed.
 
-(* one item of a history, outside the triggers, preserves the invariant and never touches a committed height *)
+(* EVERY item of a history — completed action, crash after any number of writes, shutdown cut anywhere,
+   hand-made damage to a cache file — preserves the invariant and never touches a committed height;
+   a completed action leaves the store height equal to the height of the recorded state *)
 Lemma inv_item st i :
-  Inv st -> torn_commit c st i = false -> (lv = true -> early_empty c st i = false) ->
-  Inv (fst (exec_item c st i)) /\ frame st (fst (exec_item c st i)).
+  Inv st ->
+  Inv (fst (exec_item c st i)) /\ frame st (fst (exec_item c st i)) /\
+  (is_run i = true -> synced (img_of st) -> synced (img_of (fst (exec_item c st i)))).
 Proof.
-  intros (HD & HR) Htorn Hee.
-  destruct i as [a|a k|torn].
+  intros (HD & HR).
+  destruct i as [a|a k|cut|f].
   - (* the action runs to completion *)
     destruct a as [ic|sq e]; cbn [exec_item fst do_act].
-    + pose proof (boot_spec (img_of st) (g_inits st) (g_built st) (g_execs st) (files_ok st) ic HD) as (Hcm & Hpre & Hrun).
+    + pose proof (boot_spec (img_of st) (g_inits st) (g_built st) (g_execs st) (files_ok st) ic HD) as (Hcm & Hpre & Hrun & Hsy).
       set (r := boot c (img_of st) (files_ok st) ic) in *.
       assert (Hws : a_ws r = a_pre r) by (unfold a_ws; rewrite Hcm; apply app_nil_r).
       specialize (Hpre (length (a_pre r))). rewrite firstn_all in Hpre. destruct Hpre as (HD' & Hf1 & Hf2).
-      split; [|split; cbn [img_of]; rewrite Hws; assumption].
+      split; [|split; [split; cbn [img_of]; rewrite Hws; assumption|intros _ _; cbn [img_of]; rewrite Hws; exact Hsy]].
       split; cbn [img_of g_inits g_built g_execs vol_of]; rewrite Hws, log_execs_boot; [exact HD'|].
       intros v Hv. apply Hrun, Hv.
     + destruct (vol_of st) as [v|] eqn:Hvol.
-      * assert (Hee' : lv = true -> early_empty_step c (img_of st) sq = false).
-        { intros Hlv. specialize (Hee Hlv). cbn [early_empty] in Hee. rewrite Hvol in Hee. exact Hee. }
-        pose proof (step_apply (img_of st) (g_inits st) (g_built st) (g_execs st) v sq e (HR v eq_refl) Hee')
+      * pose proof (step_apply (img_of st) (g_inits st) (g_built st) (g_execs st) v sq e (HR v eq_refl))
           as (Hini & (v' & Hv' & Hrf') & Hpre).
         set (r := step c (img_of st) v sq e) in *.
         specialize (Hpre (length (a_ws r))). rewrite firstn_all in Hpre.
         destruct Hpre as (HD' & Hf1 & Hf2).
-        { apply andb_false_iff. right. apply Nat.ltb_irrefl. }
-        split; [|split; cbn [img_of]; assumption].
-        split; cbn [img_of g_inits g_built g_execs vol_of]; rewrite Hini; cbn [log_opt]; [exact HD'|].
-        intros v0 Hv0. rewrite Hv' in Hv0. inversion Hv0; subst v0. exact Hrf'.
+        split; [|split; [split; cbn [img_of]; assumption|]].
+        { split; cbn [img_of g_inits g_built g_execs vol_of]; rewrite Hini; cbn [log_opt]; [exact HD'|].
+          intros v0 Hv0. rewrite Hv' in Hv0. inversion Hv0; subst v0. exact Hrf'. }
+        intros _ _ s0 Hs0. cbn [img_of] in *.
+        pose proof (rf_height _ _ _ _ _ Hrf') as (Hh & _).
+        destruct Hrf' as (_ & _ & _ & [[Hs _]|(Hs & _)]); rewrite Hs in Hs0; [|discriminate Hs0].
+        inversion Hs0; subst s0. symmetry; exact Hh.
       * cbn [not_running a_ws a_pre a_commit a_vol a_init a_built app log_opt log_execs a_call].
-        rewrite apply_writes_nil. split; [|apply frame_same; reflexivity].
+        rewrite apply_writes_nil. split; [|split; [apply frame_same; reflexivity|intros _ Hs; exact Hs]].
         split; cbn [img_of g_inits g_built g_execs vol_of]; [exact HD|intros v Hv; discriminate Hv].
   - (* the process dies after k writes *)
     destruct a as [ic|sq e]; cbn [exec_item fst do_act].
@@ -787,26 +800,28 @@ Proof.
       assert (Hws : a_ws r = a_pre r) by (unfold a_ws; rewrite Hcm; apply app_nil_r).
       specialize (Hpre k). destruct Hpre as (HD' & Hf1 & Hf2).
       unfold crash_after. rewrite Hws.
-      split; [|split; cbn [img_of]; assumption].
+      split; [|split; [split; cbn [img_of]; assumption|intros Hx; discriminate Hx]].
       split; cbn [img_of g_inits g_built g_execs vol_of]; rewrite log_execs_boot; [exact HD'|intros v Hv; discriminate Hv].
     + destruct (vol_of st) as [v|] eqn:Hvol.
-      * assert (Hee' : lv = true -> early_empty_step c (img_of st) sq = false).
-        { intros Hlv. specialize (Hee Hlv). cbn [early_empty] in Hee. rewrite Hvol in Hee. exact Hee. }
-        pose proof (step_apply (img_of st) (g_inits st) (g_built st) (g_execs st) v sq e (HR v eq_refl) Hee')
+      * pose proof (step_apply (img_of st) (g_inits st) (g_built st) (g_execs st) v sq e (HR v eq_refl))
           as (Hini & _ & Hpre).
-        cbn [torn_commit do_act] in Htorn. rewrite Hvol in Htorn.
         set (r := step c (img_of st) v sq e) in *.
-        specialize (Hpre k Htorn). destruct Hpre as (HD' & Hf1 & Hf2).
+        specialize (Hpre k). destruct Hpre as (HD' & Hf1 & Hf2).
         unfold crash_after.
-        split; [|split; cbn [img_of]; assumption].
+        split; [|split; [split; cbn [img_of]; assumption|intros Hx; discriminate Hx]].
         split; cbn [img_of g_inits g_built g_execs vol_of]; rewrite Hini; cbn [log_opt]; [exact HD'|intros v0 Hv0; discriminate Hv0].
       * cbn [not_running a_ws a_pre a_commit a_vol a_init a_built app log_opt log_execs a_call].
-        unfold crash_after. rewrite firstn_nil, apply_writes_nil. split; [|apply frame_same; reflexivity].
+        unfold crash_after. rewrite firstn_nil, apply_writes_nil. split; [|split; [apply frame_same; reflexivity|intros Hx; discriminate Hx]].
         split; cbn [img_of g_inits g_built g_execs vol_of]; [exact HD|intros v Hv; discriminate Hv].
   - (* shutdown *)
     cbn [exec_item]. destruct (vol_of st) as [v|] eqn:Hvol; cbn [fst].
-    + split; [|apply frame_same; reflexivity]. split; cbn [img_of g_inits g_built g_execs vol_of]; [exact HD|intros v0 Hv0; discriminate Hv0].
-    + split; [|apply frame_same; reflexivity]. split; [exact HD|]. intros v Hv. rewrite Hvol in Hv. discriminate Hv.
+    + split; [|split; [apply frame_same; reflexivity|intros Hx; discriminate Hx]].
+      split; cbn [img_of g_inits g_built g_execs vol_of]; [exact HD|intros v0 Hv0; discriminate Hv0].
+    + split; [|split; [apply frame_same; reflexivity|intros Hx; discriminate Hx]].
+      split; [exact HD|]. intros v Hv. rewrite Hvol in Hv. discriminate Hv.
+  - (* a cache file damaged by hand: datastore and process untouched *)
+    cbn [exec_item fst]. split; [|split; [apply frame_same; reflexivity|intros Hx; discriminate Hx]].
+    split; cbn [img_of g_inits g_built g_execs vol_of]; [exact HD|exact HR].
 Qed.
 
 (* ---- histories ---- *)
@@ -823,19 +838,17 @@ Proof.
 Qed.
 
 Lemma inv_run h : forall st,
-  Inv st -> hits c (torn_commit c) st h = false -> (lv = true -> hits c (early_empty c) st h = false) ->
-  Inv (fst (run_from c st h)) /\ frame st (fst (run_from c st h)).
+  Inv st ->
+  Inv (fst (run_from c st h)) /\ frame st (fst (run_from c st h)) /\
+  (crash_free h = true -> synced (img_of st) -> synced (img_of (fst (run_from c st h)))).
 Proof.
-  induction h as [|i r IH]; intros st HI Ht He.
-  - split; [exact HI|apply frame_refl].
-  - cbn [hits] in Ht, He. apply orb_false_iff in Ht. destruct Ht as (Ht1 & Ht2).
-    assert (He1 : lv = true -> early_empty c st i = false).
-    { intros Hl. specialize (He Hl). apply orb_false_iff in He. apply He. }
-    assert (He2 : lv = true -> hits c (early_empty c) (fst (exec_item c st i)) r = false).
-    { intros Hl. specialize (He Hl). apply orb_false_iff in He. apply He. }
-    destruct (inv_item st i HI Ht1 He1) as (HI' & Hf').
-    destruct (IH _ HI' Ht2 He2) as (HI'' & Hf'').
-    rewrite run_from_cons. split; [exact HI''|eapply frame_trans; eassumption].
+  induction h as [|i r IH]; intros st HI.
+  - split; [exact HI|]. split; [apply frame_refl|]. intros _ Hs; exact Hs.
+  - destruct (inv_item st i HI) as (HI' & Hf' & Hs').
+    destruct (IH _ HI') as (HI'' & Hf'' & Hs'').
+    rewrite run_from_cons. split; [exact HI''|]. split; [eapply frame_trans; eassumption|].
+    intros Hc Hsy. cbn [crash_free forallb] in Hc. apply andb_true_iff in Hc. destruct Hc as (Hc1 & Hc2).
+    apply Hs''; [exact Hc2|]. apply Hs'; assumption.
 Qed.
 
 Lemma inv_fresh : Inv fresh.
@@ -845,12 +858,28 @@ Proof.
   - intros v Hv. discriminate Hv.
 Qed.
 
-Lemma inv_chain_valid st : Inv st -> ChainValid c st.
+Lemma synced_fresh : synced (img_of fresh).
+Proof. intros s Hs. discriminate Hs. Qed.
+
+Lemma inv_chain_durable st : Inv st -> ChainDurable c st.
 Proof.
-  intros (HD & _). unfold ChainValid, DInv in *. pose proof wf_initial.
+  intros (HD & _). unfold ChainDurable, DInv in *. pose proof wf_initial.
   destruct (g_state (img_of st)) as [s|].
-  - right. destruct HD as ((r0 & Hr & Hc) & Hle & _). exists r0, s. splits; try assumption. reflexivity.
+  - right. destruct HD as ((r0 & Hr & Hc) & Hle & Hb1 & Hb2 & _). exists r0, s. splits; try assumption. reflexivity.
   - left. destruct HD as (Hle & _). split; [lia|reflexivity].
+Qed.
+
+Lemma inv_chain_valid st : Inv st -> synced (img_of st) -> ChainValid c st.
+Proof.
+  intros HI Hsy. destruct (inv_chain_durable st HI) as [Hn|(r0 & s & Hr & Hc & Hs & Hle & _)]; [left; exact Hn|].
+  right. exists r0, s. rewrite (Hsy s Hs). splits; assumption.
+Qed.
+
+Lemma running_synced st v : Inv st -> vol_of st = Some v -> synced (img_of st).
+Proof.
+  intros (_ & HR) Hv s Hs. specialize (HR v Hv). pose proof (rf_height _ _ _ _ _ HR) as (Hh & _).
+  destruct HR as (_ & _ & _ & [[Hs' _]|(Hs' & _)]); rewrite Hs' in Hs; [|discriminate Hs].
+  inversion Hs; subst s. symmetry; exact Hh.
 Qed.
 
 (* ---- liveness ---- *)
@@ -860,7 +889,6 @@ Lemma live_early v n lsig lhdr txs ts :
 Proof. intros Hn Ht. apply live_intro; try reflexivity; cbn; [lia|exact Ht]. Qed.
 
 Lemma no_wedge_step m inits built execs v sq e lt0 :
-  lv = true ->
   RF m inits built execs (v_state v) ->
   match sq, e with
   | SBatch _ ts _, EOk _ => match last_info c m (g_height m) with
@@ -872,7 +900,7 @@ Lemma no_wedge_step m inits built execs v sq e lt0 :
   end = true ->
   a_out (step c m v sq e) = OCommitted (g_height m + 1).
 Proof.
-  intros Hlv Hrf Hwfr.
+  intros Hrf Hwfr.
   pose proof (rf_height _ _ _ _ _ Hrf) as (Hsh & Hge).
   destruct (last_info_rf _ _ _ _ _ Hrf) as (lsig & ltime & Hli & Hlt).
   destruct Hrf as (Hch & Hp & Ha & Hs).
@@ -881,13 +909,14 @@ Proof.
   rewrite Hli in Hwfr.
   unfold step. rewrite Hli.
   destruct (g_block m (g_height m + 1)) as [pb|] eqn:Hpb.
-  - destruct (Hp pb eq_refl) as (_ & _ & _ & D). specialize (D Hlv). unfold live in D.
+  - destruct (Hp pb eq_refl) as (_ & _ & _ & D). unfold live in D.
     unfold finish. rewrite D. cbn [a_out].
     apply validate_facts in D. destruct D as (Hhh & _). cbn [final_block b_sh sh_hdr] in Hhh.
     unfold hdr_of in *. f_equal. lia.
   - destruct Hs as [[_ Hle]|(_ & HH & b0 & Hb0)].
     2:{ replace (c_initial c) with (g_height m + 1) in Hb0 by (pose proof wf_initial; lia). congruence. }
     destruct Hlt as [[Hle' _]|[_ ->]]; [lia|].
+    cbv zeta.
     replace (ts <? s_time (v_state v))%Z with false by lia. rewrite andb_false_r.
     rewrite wf_gaddr, addr_eqb_refl. cbn [negb].
     unfold finish.
@@ -899,7 +928,7 @@ Lemma boot_ok m inits built execs r0 :
   DInv m inits built execs -> exists v, a_vol (boot c m true (Some r0)) = Some v.
 Proof.
   intros HD. unfold boot. unfold DInv in HD. destruct (g_state m) as [s|].
-  - destruct HD as ((r1 & _ & Hc) & Hle & _). apply chain_height in Hc. destruct Hc as (Hsh & _).
+  - destruct HD as (_ & Hle & _).
     destruct (N.ltb_spec (s_height s) (c_initial c)); [lia|]. eexists; reflexivity.
   - eexists; reflexivity.
 Qed.
@@ -907,40 +936,31 @@ Qed.
 End Inv.
 
 (* ================================================================================================ *)
-(* 6. history-level theorems                                                                        *)
+(* 6. history-level theorems: no guard on the history                                               *)
 (* ================================================================================================ *)
 
-Lemma hits_false_crash_free c h : crash_free h = true -> forall st, hits c (torn_commit c) st h = false.
-Proof.
-  induction h as [|i r IH]; intros Hc st; [reflexivity|].
-  cbn [crash_free forallb] in Hc. apply andb_true_iff in Hc. destruct Hc as (Hi & Hr).
-  cbn [hits]. rewrite (IH Hr). destruct i; try discriminate Hi. reflexivity.
-Qed.
-
-Theorem reach_inv c h :
-  wf_cfg c -> f5_hit c h = false -> Inv c false (run c h).
-Proof.
-  intros Hwf H5. unfold run. apply (inv_run c Hwf false h fresh (inv_fresh c false) H5). discriminate.
-Qed.
-
-Theorem reach_inv_live c h :
-  wf_cfg c -> f5_hit c h = false -> f1_hit c h = false -> Inv c true (run c h).
-Proof.
-  intros Hwf H5 H1. unfold run. apply (inv_run c Hwf true h fresh (inv_fresh c true) H5). intros _; exact H1.
-Qed.
+Theorem reach_inv c h : wf_cfg c -> Inv c (run c h).
+Proof. intros Hwf. unfold run. apply (inv_run c Hwf h fresh (inv_fresh c)). Qed.
 
 (* C01: chain validity for every crash-free history *)
 Theorem chain_valid_crash_free c h :
   wf_cfg c -> crash_free h = true -> ChainValid c (run c h).
 Proof.
-  intros Hwf Hc. apply (inv_chain_valid c Hwf false). apply reach_inv; [exact Hwf|].
-  apply hits_false_crash_free, Hc.
+  intros Hwf Hc. destruct (inv_run c Hwf h fresh (inv_fresh c)) as (HI & _ & Hs).
+  apply (inv_chain_valid c Hwf); [exact HI|]. apply Hs; [exact Hc|apply synced_fresh].
 Qed.
 
-(* C04 (i)(iii)(iv): chain validity / agreement for every history without a torn commit *)
-Theorem chain_valid_guarded c h :
-  wf_cfg c -> f5_hit c h = false -> ChainValid c (run c h).
-Proof. intros Hwf H5. apply (inv_chain_valid c Hwf false), reach_inv; assumption. Qed.
+(* C04: the durable image is consistent after EVERY history *)
+Theorem chain_durable_all c h : wf_cfg c -> ChainDurable c (run c h).
+Proof. intros Hwf. apply (inv_chain_durable c Hwf), reach_inv, Hwf. Qed.
+
+(* C04: whenever a process runs (i.e. after every successful start), height, state and blocks agree *)
+Theorem chain_valid_running c h :
+  wf_cfg c -> forall v, vol_of (run c h) = Some v -> ChainValid c (run c h).
+Proof.
+  intros Hwf v Hv. pose proof (reach_inv c h Hwf) as HI.
+  apply (inv_chain_valid c Hwf); [exact HI|]. eapply running_synced; eassumption.
+Qed.
 
 Lemma run_app c h1 h2 : run c (h1 ++ h2) = fst (run_from c (run c h1) h2).
 Proof.
@@ -948,76 +968,80 @@ Proof.
   cbn [app]. rewrite !run_from_cons. apply IH.
 Qed.
 
-Lemma hits_app c p h1 h2 st :
-  hits c p st (h1 ++ h2) = hits c p st h1 || hits c p (fst (run_from c st h1)) h2.
-Proof.
-  revert st. induction h1 as [|i r IH]; intros st; [reflexivity|].
-  cbn [app hits]. rewrite IH, run_from_cons, orb_assoc. reflexivity.
-Qed.
-
 (* C04 (ii): a committed height keeps its block, the height never decreases *)
 Theorem committed_stable c h1 h2 :
-  wf_cfg c -> f5_hit c (h1 ++ h2) = false ->
+  wf_cfg c ->
   let st1 := run c h1 in let st2 := run c (h1 ++ h2) in
   g_height (img_of st1) <= g_height (img_of st2) /\
   forall k, k <= g_height (img_of st1) -> g_block (img_of st2) k = g_block (img_of st1) k.
 Proof.
-  intros Hwf H5 st1 st2. unfold f5_hit in H5. rewrite hits_app in H5. apply orb_false_iff in H5.
-  destruct H5 as (Ha & Hb).
-  assert (HI : Inv c false st1) by (apply reach_inv; assumption).
-  unfold st2. rewrite run_app.
-  destruct (inv_run c Hwf false h2 st1 HI Hb) as (_ & Hf); [discriminate|]. exact Hf.
+  intros Hwf st1 st2. unfold st2. rewrite run_app.
+  destruct (inv_run c Hwf h2 st1 (reach_inv c h1 Hwf)) as (_ & Hf & _). exact Hf.
 Qed.
 
-(* the cache files stay intact unless a shutdown is torn *)
-Lemma files_ok_run c h : forall st, files_ok st = true -> hits c torn_files st h = false ->
-  files_ok (fst (run_from c st h)) = true.
+(* crashes and shutdowns cut anywhere never leave a cache file that is neither absent nor complete *)
+Lemma bad_files_run c h : untampered h = true -> forall st, bad_files st = [] ->
+  bad_files (fst (run_from c st h)) = [].
 Proof.
-  induction h as [|i r IH]; intros st Hf Hh; [exact Hf|].
-  cbn [hits] in Hh. apply orb_false_iff in Hh. destruct Hh as (H1 & H2).
-  rewrite run_from_cons. apply IH; [|exact H2].
-  destruct i as [a|a k|torn]; cbn [exec_item fst files_ok]; try exact Hf.
-  destruct (vol_of st) eqn:Hv; cbn [fst files_ok]; [|exact Hf].
-  cbn [torn_files] in H1. rewrite Hv in H1. destruct torn; [discriminate H1|reflexivity].
+  induction h as [|i r IH]; intros Hu st Hf; [exact Hf|].
+  cbn [untampered forallb] in Hu. apply andb_true_iff in Hu. destruct Hu as (H1 & H2).
+  rewrite run_from_cons. apply IH; [exact H2|].
+  destruct i as [a|a k|cut|f]; cbn [exec_item fst bad_files]; try exact Hf.
+  - destruct (vol_of st); cbn [fst bad_files]; [|exact Hf]. destruct cut; [rewrite Hf|]; reflexivity.
+  - discriminate H1.
 Qed.
 
-(* C01 no-wedge, guarded: a well-formed pair of responses commits the next block at once *)
-Theorem no_wedge_guarded c h :
-  wf_cfg c -> f5_hit c h = false -> f1_hit c h = false ->
+Lemma wf_resp_shape c st sq e :
+  wf_resp c st sq e = true ->
+  match sq, e with
+  | SBatch _ ts _, EOk _ => match last_info c (img_of st) (g_height (img_of st)) with
+                            | Some (_, _, Some lt) => (lt <=? ts)%Z
+                            | Some (_, _, None) => true
+                            | None => true
+                            end
+  | _, _ => false
+  end = true.
+Proof.
+  unfold wf_resp, last_time. destruct sq as [| |txs ts cur]; try discriminate.
+  destruct e as [ret|]; try discriminate.
+  destruct (last_info c (img_of st) (g_height (img_of st))) as [[[a b] [lt|]]|]; intros Hw; try exact Hw; reflexivity.
+Qed.
+
+(* C01 no-wedge: whenever a process runs, a well-formed pair of responses commits the next block at once *)
+Theorem no_wedge_all c h :
+  wf_cfg c ->
   forall v, vol_of (run c h) = Some v ->
   forall sq e, wf_resp c (run c h) sq e = true ->
   a_out (step c (img_of (run c h)) v sq e) = OCommitted (g_height (img_of (run c h)) + 1).
 Proof.
-  intros Hwf H5 H1 v Hv sq e Hw.
-  destruct (reach_inv_live c h Hwf H5 H1) as (_ & HR).
-  apply (no_wedge_step c Hwf true _ _ _ _ v sq e true eq_refl (HR v Hv)).
-  unfold wf_resp, last_time in Hw. destruct sq as [| |txs ts cur]; try discriminate Hw.
-  destruct e as [ret|]; try discriminate Hw.
-  destruct (last_info c (img_of (run c h)) (g_height (img_of (run c h)))) as [[[a b] [lt|]]|]; try exact Hw; reflexivity.
+  intros Hwf v Hv sq e Hw.
+  destruct (reach_inv c h Hwf) as (_ & HR).
+  apply (no_wedge_step c Hwf _ _ _ _ v sq e true (HR v Hv)). apply wf_resp_shape, Hw.
 Qed.
 
-(* C04 (v): after any guarded history a restart succeeds and a well-formed step commits *)
-Theorem restart_guarded c h r0 :
-  wf_cfg c -> f5_hit c h = false -> f1_hit c h = false -> f6_hit c h = false ->
+(* C04 (v): after ANY history of boots, steps, crashes and shutdowns a restart with a working execution
+   layer succeeds, everything agrees, and a well-formed pair of responses commits the next block at once *)
+Theorem restart_all c h r0 :
+  wf_cfg c -> untampered h = true ->
   let st' := fst (exec_item c (run c h) (IRun (ABoot (Some r0)))) in
-  exists v, vol_of st' = Some v /\
+  exists v, vol_of st' = Some v /\ ChainValid c st' /\
     forall sq e, wf_resp c st' sq e = true ->
       a_out (step c (img_of st') v sq e) = OCommitted (g_height (img_of st') + 1).
 Proof.
-  intros Hwf H5 H1 H6 st'.
-  pose proof (reach_inv_live c h Hwf H5 H1) as HI.
-  assert (Hf : files_ok (run c h) = true) by (apply files_ok_run; [reflexivity|exact H6]).
-  destruct (inv_item c Hwf true (run c h) (IRun (ABoot (Some r0))) HI eq_refl (fun _ => eq_refl)) as ((_ & HR') & _).
-  fold st' in HR'.
+  intros Hwf Hu st'.
+  pose proof (reach_inv c h Hwf) as HI.
+  assert (Hf : files_ok (run c h) = true).
+  { unfold files_ok, run. rewrite (bad_files_run c h Hu fresh eq_refl). reflexivity. }
+  destruct (inv_item c Hwf (run c h) (IRun (ABoot (Some r0))) HI) as (HI' & _ & _).
+  fold st' in HI'.
   destruct HI as (HD & _).
-  destruct (boot_ok c true _ _ _ _ r0 HD) as (v & Hv).
+  destruct (boot_ok c _ _ _ _ r0 HD) as (v & Hv).
   assert (Hv' : vol_of st' = Some v).
   { unfold st'. cbn [exec_item fst vol_of do_act]. rewrite Hf. exact Hv. }
-  exists v. split; [exact Hv'|]. intros sq e Hw.
-  apply (no_wedge_step c Hwf true _ _ _ _ v sq e true eq_refl (HR' v Hv')).
-  unfold wf_resp, last_time in Hw. destruct sq as [| |txs ts cur]; try discriminate Hw.
-  destruct e as [ret|]; try discriminate Hw.
-  destruct (last_info c (img_of st') (g_height (img_of st'))) as [[[a b] [lt|]]|]; try exact Hw; reflexivity.
+  exists v. split; [exact Hv'|]. split.
+  - apply (inv_chain_valid c Hwf); [exact HI'|]. eapply running_synced; eassumption.
+  - intros sq e Hw. destruct HI' as (_ & HR').
+    apply (no_wedge_step c Hwf _ _ _ _ v sq e true (HR' v Hv')). apply wf_resp_shape, Hw.
 Qed.
 
 (* ================================================================================================ *)
@@ -1084,172 +1108,45 @@ Proof.
 Qed.
 
 (* ================================================================================================ *)
-(* 8. kernel-checked witnesses of the defects of the modelled code                                  *)
-(* ================================================================================================ *)
-Definition wcfg : cfg := {| c_chain := 1; c_initial := 1; c_gtime := 0%Z; c_key := 7; c_gaddr := Addr 7 |}.
-
-Lemma wcfg_wf : wf_cfg wcfg. Proof. split; [cbn; lia|reflexivity]. Qed.
-
-(* F1: boot, first block, a block at time 1000, then an EMPTY batch stamped 500 *)
-Definition f1_history : list item :=
-  [ IRun (ABoot (Some 1)); IRun (AStep SNil (EOk 2)); IRun (AStep (SBatch [5; 6] 1000%Z 1) (EOk 3));
-    IRun (AStep (SBatch [] 500%Z 2) (EOk 4)) ].
-
-(* from the state this history reaches, NO pair of responses ever commits a block again, and nothing changes *)
-Definition wedged (c : cfg) (st : mach) : Prop :=
-  exists v, vol_of st = Some v /\
-    forall sq e, let r := step c (img_of st) v sq e in
-      committed_out (a_out r) = false /\ a_ws r = [] /\ a_vol r = Some v.
-
-Lemma f1_wedges :
-  wf_cfg wcfg /\ crash_free f1_history = true /\ f5_hit wcfg f1_history = false /\
-  g_height (img_of (run wcfg f1_history)) = 2 /\ wedged wcfg (run wcfg f1_history).
-Proof.
-  split; [exact wcfg_wf|]. split; [reflexivity|]. split; [vm_compute; reflexivity|]. split; [vm_compute; reflexivity|].
-  eexists. split; [vm_compute; reflexivity|].
-  intros sq e r. subst r. destruct e as [ret|]; vm_compute; repeat split.
-Qed.
-
-(* F5: the process dies between the store-height write and the state write of the second block;
-   after the restart the next block is built on the stale state, fails validation and is re-used forever *)
-Definition f5_history : list item :=
-  [ IRun (ABoot (Some 1)); IRun (AStep SNil (EOk 2));
-    ICrash (AStep (SBatch [5] 1000%Z 1) (EOk 3)) 4;
-    IRun (ABoot (Some 4)); IRun (AStep (SBatch [6] 2000%Z 2) (EOk 5)) ].
-
-Lemma f5_wedges :
-  wf_cfg wcfg /\ f1_hit wcfg f5_history = false /\ f6_hit wcfg f5_history = false /\
-  g_height (img_of (run wcfg f5_history)) = 2 /\
-  option_map s_height (g_state (img_of (run wcfg f5_history))) = Some 1 /\
-  ~ ChainValid wcfg (run wcfg f5_history) /\
-  wedged wcfg (run wcfg f5_history).
-Proof.
-  split; [exact wcfg_wf|]. split; [vm_compute; reflexivity|]. split; [vm_compute; reflexivity|].
-  split; [vm_compute; reflexivity|]. split; [vm_compute; reflexivity|]. split.
-  - intros [[Hlt _]|(r0 & s & _ & Hc & Hs & _)].
-    + vm_compute in Hlt. discriminate Hlt.
-    + apply chain_height in Hc. destruct Hc as (Hh & _).
-      assert (E : option_map s_height (g_state (img_of (run wcfg f5_history))) = Some 1) by (vm_compute; reflexivity).
-      rewrite Hs in E. cbn [option_map] in E. inversion E as [E'].
-      assert (E2 : g_height (img_of (run wcfg f5_history)) = 2) by (vm_compute; reflexivity).
-      rewrite E2 in Hh. rewrite Hh in E'. discriminate E'.
-  - eexists. split; [vm_compute; reflexivity|].
-    intros sq e r. subst r. destruct e as [ret|]; vm_compute; repeat split.
-Qed.
-
-(* F6: a shutdown that dies while a cache file is partly written; every later start fails *)
-Definition f6_history : list item :=
-  [ IRun (ABoot (Some 1)); IRun (AStep SNil (EOk 2)); IStop true ].
-
-Lemma f6_never_starts :
-  wf_cfg wcfg /\ f5_hit wcfg f6_history = false /\ f1_hit wcfg f6_history = false /\
-  ChainValid wcfg (run wcfg f6_history) /\
-  forall ic, let st' := fst (exec_item wcfg (run wcfg f6_history) (IRun (ABoot ic))) in
-    vol_of st' = None /\ files_ok st' = false /\ img_of st' = img_of (run wcfg f6_history).
-Proof.
-  split; [exact wcfg_wf|]. split; [vm_compute; reflexivity|]. split; [vm_compute; reflexivity|].
-  split; [apply chain_valid_guarded; [exact wcfg_wf|vm_compute; reflexivity]|].
-  intros ic st'. subst st'. destruct ic; vm_compute; repeat split.
-Qed.
-
-(* ================================================================================================ *)
-(* 9. the statements of Props/C01.v and Props/C04.v                                                 *)
+(* 8. the height-by-height statements of Props/C01.v and Props/C04.v                                *)
 (* ================================================================================================ *)
 
-(* C01, flat form *)
+Lemma blocks_of_chain_valid c st :
+  wf_cfg c -> ChainValid c st ->
+  let m := img_of st in
+  forall k, c_initial c <= k -> k <= g_height m ->
+  exists r0 s, In r0 (g_inits st) /\ g_state m = Some s /\ s_height s = g_height m /\
+               block_facts c (g_block m) (g_built st) (g_execs st) r0 (g_height m) s k.
+Proof.
+  intros Hwf [[Hlt _]|(r0 & s & Hr & Hch & Hs & Hle)] m k Hk1 Hk2; [fold m in Hlt; lia|].
+  fold m in Hr, Hch, Hs, Hle. exists r0, s. split; [exact Hr|]. split; [exact Hs|].
+  split; [apply chain_height in Hch; apply Hch|]. eapply chain_explicit; eauto.
+Qed.
+
 Theorem blocks_valid_crash_free c h :
   wf_cfg c -> crash_free h = true ->
   let st := run c h in let m := img_of st in
   forall k, c_initial c <= k -> k <= g_height m ->
   exists r0 s, In r0 (g_inits st) /\ g_state m = Some s /\ s_height s = g_height m /\
                block_facts c (g_block m) (g_built st) (g_execs st) r0 (g_height m) s k.
-Proof.
-  intros Hwf Hc st m k Hk1 Hk2.
-  destruct (chain_valid_crash_free c h Hwf Hc) as [[Hlt _]|(r0 & s & Hr & Hch & Hs & Hle)]; [fold st m in Hlt; lia|].
-  fold st m in Hr, Hch, Hs, Hle. exists r0, s. split; [exact Hr|]. split; [exact Hs|].
-  split; [apply chain_height in Hch; apply Hch|]. eapply chain_explicit; eauto.
-Qed.
+Proof. intros Hwf Hc. apply blocks_of_chain_valid; [exact Hwf|]. apply chain_valid_crash_free; assumption. Qed.
 
-Theorem blocks_valid_guarded c h :
-  wf_cfg c -> f5_hit c h = false ->
+Theorem blocks_valid_running c h :
+  wf_cfg c -> forall v, vol_of (run c h) = Some v ->
   let st := run c h in let m := img_of st in
   forall k, c_initial c <= k -> k <= g_height m ->
   exists r0 s, In r0 (g_inits st) /\ g_state m = Some s /\ s_height s = g_height m /\
                block_facts c (g_block m) (g_built st) (g_execs st) r0 (g_height m) s k.
-Proof.
-  intros Hwf Hc st m k Hk1 Hk2.
-  destruct (chain_valid_guarded c h Hwf Hc) as [[Hlt _]|(r0 & s & Hr & Hch & Hs & Hle)]; [fold st m in Hlt; lia|].
-  fold st m in Hr, Hch, Hs, Hle. exists r0, s. split; [exact Hr|]. split; [exact Hs|].
-  split; [apply chain_height in Hch; apply Hch|]. eapply chain_explicit; eauto.
-Qed.
+Proof. intros Hwf v Hv. apply blocks_of_chain_valid; [exact Hwf|]. eapply chain_valid_running; eassumption. Qed.
 
-Theorem no_wedge_crash_free_guarded c h :
-  wf_cfg c -> crash_free h = true -> f1_hit c h = false ->
+Theorem no_wedge_crash_free c h :
+  wf_cfg c -> crash_free h = true ->
   forall v, vol_of (run c h) = Some v ->
   forall sq e, wf_resp c (run c h) sq e = true ->
   a_out (step c (img_of (run c h)) v sq e) = OCommitted (g_height (img_of (run c h)) + 1).
-Proof.
-  intros Hwf Hc H1. apply no_wedge_guarded; try assumption. apply hits_false_crash_free, Hc.
-Qed.
+Proof. intros Hwf _. apply no_wedge_all, Hwf. Qed.
 
-Lemma wedged_not_live c st : wedged c st ->
-  forall v, vol_of st = Some v -> forall sq e, a_out (step c (img_of st) v sq e) <> OCommitted (g_height (img_of st) + 1).
-Proof.
-  intros (v0 & Hv0 & Hw) v Hv sq e Hc. rewrite Hv0 in Hv. inversion Hv; subst v0.
-  destruct (Hw sq e) as (Hn & _). rewrite Hc in Hn. discriminate Hn.
-Qed.
-
-(* the unguarded no-wedge statement is false of the model (F1) *)
-Theorem no_wedge_refuted :
-  ~ (forall c h, wf_cfg c -> crash_free h = true ->
-       forall v, vol_of (run c h) = Some v ->
-       forall sq e, wf_resp c (run c h) sq e = true ->
-       a_out (step c (img_of (run c h)) v sq e) = OCommitted (g_height (img_of (run c h)) + 1))
-  /\ exists c h, wf_cfg c /\ crash_free h = true /\ wedged c (run c h).
-Proof.
-  destruct f1_wedges as (Hwf & Hcf & _ & _ & Hw). split.
-  - intros Hall. destruct Hw as (v & Hv & Hw).
-    specialize (Hall wcfg f1_history Hwf Hcf v Hv (SBatch [9] 5000%Z 9) (EOk 9)).
-    destruct (Hw (SBatch [9] 5000%Z 9) (EOk 9)) as (Hn & _).
-    rewrite Hall in Hn; [discriminate Hn|]. vm_compute. reflexivity.
-  - exists wcfg, f1_history. split; [exact Hwf|]. split; [exact Hcf|exact Hw].
-Qed.
-
-(* C04: without the guard the recovery statement is false of the model (F5) *)
-Theorem recovery_refuted :
-  ~ (forall c h, wf_cfg c -> ChainValid c (run c h))
-  /\ exists c h, wf_cfg c /\ f1_hit c h = false /\ f6_hit c h = false /\ ~ ChainValid c (run c h) /\ wedged c (run c h).
-Proof.
-  destruct f5_wedges as (Hwf & H1 & H6 & _ & _ & Hn & Hw). split.
-  - intros Hall. apply Hn, Hall, Hwf.
-  - exists wcfg, f5_history. repeat (split; [assumption|]). exact Hw.
-Qed.
-
-(* F5 also lets a committed block be replaced: the first block is committed (height written), the
-   process dies before the state write, and the restart re-creates the genesis block from a new InitChain root *)
-Definition f5b_h1 : list item := [ IRun (ABoot (Some 1)); ICrash (AStep SNil (EOk 2)) 2 ].
-Definition f5b_h2 : list item := [ IRun (ABoot (Some 9)) ].
-
-Theorem stable_refuted :
-  ~ (forall c h1 h2, wf_cfg c ->
-       forall k, k <= g_height (img_of (run c h1)) -> g_block (img_of (run c (h1 ++ h2))) k = g_block (img_of (run c h1)) k).
-Proof.
-  intros Hall. specialize (Hall wcfg f5b_h1 f5b_h2 wcfg_wf 1).
-  assert (E : g_height (img_of (run wcfg f5b_h1)) = 1) by (vm_compute; reflexivity).
-  rewrite E in Hall. specialize (Hall (N.le_refl 1)).
-  vm_compute in Hall. discriminate Hall.
-Qed.
-
-(* C04: a torn cache file makes every restart fail (F6) *)
-Theorem restart_refuted :
-  ~ (forall c h r0, wf_cfg c -> f5_hit c h = false -> f1_hit c h = false ->
-       exists v, vol_of (fst (exec_item c (run c h) (IRun (ABoot (Some r0))))) = Some v)
-  /\ exists c h, wf_cfg c /\ f5_hit c h = false /\ f1_hit c h = false /\ ChainValid c (run c h) /\
-       forall ic, let st' := fst (exec_item c (run c h) (IRun (ABoot ic))) in
-         vol_of st' = None /\ files_ok st' = false /\ img_of st' = img_of (run c h).
-Proof.
-  destruct f6_never_starts as (Hwf & H5 & H1 & Hcv & Hn). split.
-  - intros Hall. destruct (Hall wcfg f6_history 5 Hwf H5 H1) as (v & Hv).
-    pose proof (Hn (@Some root 5)) as Hx. cbv zeta in Hx. destruct Hx as (Hnone & _). congruence.
-  - exists wcfg, f6_history. repeat (split; [assumption|]). exact Hn.
-Qed.
+Theorem consistent_all c h :
+  wf_cfg c ->
+  ChainDurable c (run c h) /\ (forall v, vol_of (run c h) = Some v -> ChainValid c (run c h)).
+Proof. intros Hwf. split; [apply chain_durable_all, Hwf|apply chain_valid_running, Hwf]. Qed.
